@@ -114,7 +114,10 @@ pub fn check_bytes(ctx: &Ctx, data: &[u8]) -> Result<(), (Value, String)> {
         },
         "C04" => go!(c04::decode, c04::check),
         "C05" => go!(c05::decode, c05::check),
-        "C06" => go!(c06::decode, c06::check),
+        "C06" => {
+            let tol = ctx.tolerate(c06::KF_AFE_FRAMESET);
+            go!(c06::decode, |c: &crate::gen::cases::TreeCase, st: &mut Stats| c06::check_kf(c, st, tol))
+        },
         "C07" => go!(c07::decode, c07::check),
         "C08" => go!(c08::decode, c08::check),
         "C09" => go!(c09::decode_random, c09::check),
